@@ -16,6 +16,7 @@
 #include <gvt/fossil.h>
 #include <log/stats.h>
 #include <mm/msg_allocator.h>
+#include <core/verif.h>
 
 static void worker_thread_init(rid_t this_rid)
 {
@@ -61,6 +62,7 @@ static thrd_ret_t THREAD_CALL_CONV parallel_thread_run(void *rid_arg)
 	worker_thread_init((uintptr_t)rid_arg);
 
 	while(likely(termination_cant_end())) {
+		VERIF_YIELD(VP_WORKER_LOOP);
 		mpi_remote_msg_handle();
 
 		unsigned i = 64;
@@ -69,6 +71,7 @@ static thrd_ret_t THREAD_CALL_CONV parallel_thread_run(void *rid_arg)
 
 		simtime_t current_gvt = gvt_phase_run();
 		if(unlikely(current_gvt != 0.0)) {
+			VERIF_TRACE(VK_GVT, current_gvt, 0, 0);
 			termination_on_gvt(current_gvt);
 			auto_ckpt_on_gvt();
 			fossil_on_gvt(current_gvt);
@@ -77,6 +80,7 @@ static thrd_ret_t THREAD_CALL_CONV parallel_thread_run(void *rid_arg)
 		}
 	}
 
+	VERIF_YIELD(VP_WORKER_FINI);
 	worker_thread_fini();
 
 	return THREAD_RET_SUCCESS;
